@@ -282,6 +282,35 @@ func isReturn(i ssa.Instruction) bool { _, ok := i.(*ssa.Return); return ok }
 // res returns the i-th result of a return, looking through the result cells that go/ssa
 // introduces in functions with defers (store; rundefers; load; return).
 func res(ret *ssa.Return, i int) ssa.Value {
+	v := res0(ret, i)
+	// an error value that every way to this return has found to be nil is nil (bare `return` with named
+	// results after `if err != nil { return }`, `return conf, err` after the same test)
+	if _, isC := v.(*ssa.Const); !isC && isErrorType(v.Type()) {
+		key := [2]interface{}{ret, i}
+		if c, ok := resNilCache[key]; ok {
+			if c != nil {
+				return c
+			}
+			return v
+		}
+		var out ssa.Value
+		fn := ret.Parent()
+		if reach0(fn, nil, func(j ssa.Instruction) bool { return j == ssa.Instruction(ret) }, nil, func(a, b *ssa.BasicBlock) bool {
+			return nilnessEdge(a, b, func(x ssa.Value) bool { return x == v }, true)
+		}, false) == nil && ret.Block() != fn.Blocks[0] {
+			out = ssa.NewConst(nil, v.Type())
+		}
+		resNilCache[key] = out
+		if out != nil {
+			return out
+		}
+	}
+	return v
+}
+
+var resNilCache = map[[2]interface{}]ssa.Value{}
+
+func res0(ret *ssa.Return, i int) ssa.Value {
 	v := ret.Results[i]
 	u, ok := v.(*ssa.UnOp)
 	if !ok || u.Op != token.MUL {
@@ -303,6 +332,42 @@ func res(ret *ssa.Return, i int) ssa.Value {
 	}
 	if last != nil {
 		return last
+	}
+	// named results in a function with defers live in cells: the value returned is the last store on the
+	// way here — followed back through blocks with a single way in — or the zero value when there is none
+	private := true
+	if refs := al.Referrers(); refs != nil {
+		for _, ref := range *refs {
+			switch x := ref.(type) {
+			case *ssa.Store:
+				if x.Addr != ssa.Value(al) {
+					private = false
+				}
+			case *ssa.UnOp, *ssa.DebugRef:
+			default:
+				private = false
+			}
+		}
+	}
+	if private {
+		for cur := b; ; {
+			if len(cur.Preds) != 1 || cur.Preds[0] == cur {
+				if len(cur.Preds) == 0 {
+					return ssa.NewConst(nil, al.Type().Underlying().(*types.Pointer).Elem())
+				}
+				break
+			}
+			cur = cur.Preds[0]
+			var st *ssa.Store
+			for _, ins := range cur.Instrs {
+				if s, ok := ins.(*ssa.Store); ok && s.Addr == ssa.Value(al) {
+					st = s
+				}
+			}
+			if st != nil {
+				return st.Val
+			}
+		}
 	}
 	// single store anywhere
 	if st := singleStore(al); st != nil {
